@@ -15,10 +15,24 @@
 (*   COutside / CMutate.                                                    *)
 (* Layer B (implementation-shaped model of pipefunc/_pipeline/_cache.py +   *)
 (*   the cache branches of Pipeline._run, model-checked by MC_PipelineCache)*)
-(*   ImplKey / IVal / ICall / IMutate with invariant Coherent, and the       *)
+(*   ImplKey / HitMap / IVal / IPuts / ICacheMut, invariant Coherent, and the *)
 (*   switch Scheme = "asis" | "repaired".                                   *)
 (* Both layers share the mutation operators and the diagnosis operator that *)
 (* names the cause of a stale value.                                        *)
+(*                                                                         *)
+(* Stated don't-care set of layer A (nothing here is ever a violation):     *)
+(*  - a call that fails WITHOUT caching (missing argument, surplus keyword, *)
+(*    requested output supplied): any outcome of the cached pipeline;       *)
+(*  - a keyword shadowed by a bound value of the function that takes it     *)
+(*    (C02's don't-care): ignored by Eval, as by the code;                   *)
+(*  - a cache=TRUE function that executes although it could have been       *)
+(*    answered from the cache, unless the call exactly repeats the previous  *)
+(*    one, its documented key was observed in pipeline.cache.cache before   *)
+(*    the call and the observed size/capacity exclude an eviction during    *)
+(*    the call (what the code stores and evicts is its own business:        *)
+(*    "never stored" / "evicted" is not "re-executed");                      *)
+(*  - a function that executes although a hit further down made it          *)
+(*    unnecessary.                                                          *)
 (*                                                                         *)
 (* EXTENSION POINT (map side, not built here): Pipeline.map consults        *)
 (* `_get_or_set_cache` (pipefunc/map/_run.py) for EVERY function, keyed by  *)
@@ -90,6 +104,11 @@ ApplyMut(dd, m) ==
 (* version pdv.  dvers = sequence of [kind, d]: version 1 is the initial description, every later version is the *)
 (* result of one mutation.  The answer only names the defect family (signature of a violation); acceptance or    *)
 (* rejection never depends on it.                                                                               *)
+RootVal(dd, k, r) == IF PHas(k, r) THEN PGet(k, r) ELSE IF HasDefault(dd, r) THEN DefaultOf(dd, r) ELSE MissingV
+(* the two calls agree on every root argument of i except on one that i itself binds (and an upstream function takes) *)
+OnlyShadowedDiffer(dd, i, k1, k2) ==
+    /\ \E p \in RootArgsOf(dd, i) : IsBound(dd, i, p) /\ RootVal(dd, k1, p) # RootVal(dd, k2, p)
+    /\ \A r \in RootArgsOf(dd, i) : ~IsBound(dd, i, r) => RootVal(dd, k1, r) = RootVal(dd, k2, r)
 Diagnose(dvers, know, i, o, vobs, pkw, pdv) ==
     LET dnow  == dvers[Len(dvers)].d
         dprod == dvers[pdv].d
@@ -98,7 +117,7 @@ Diagnose(dvers, know, i, o, vobs, pkw, pdv) ==
         THEN "stale-after-" \o dvers[CHOOSE m \in brk : \A x \in brk : m <= x].kind
         ELSE IF SuppliedOnPath(dprod, pkw, i)  THEN "populated-with-supplied-intermediate"
         ELSE IF SuppliedOnPath(dnow, know, i)  THEN "read-with-supplied-intermediate"
-        ELSE IF BoundShadowsRoot(dnow, i)      THEN "bound-shadows-root-argument"
+        ELSE IF OnlyShadowedDiffer(dnow, i, pkw, know) THEN "bound-shadows-root-argument"
         ELSE "same-key-for-different-arguments"
 
 ---------------------------------------------------------------------------
